@@ -214,7 +214,8 @@ def run(chk):
             chk.evaluations += 1
             where = '%s cb/%s decoded by read_packet at release %d and written under release %d' % (k, st, ra['p'], rb['p'])
             if not isinstance(got_pkt, bind[('cb', st, k)]):
-                chk.violation('ref:relay:decode:%s' % k, '%s: read_packet returned %r' % (where, got_pkt), {'row': ra})
+                desc = got_pkt if isinstance(got_pkt, BaseException) else '%s (id %r)' % (type(got_pkt).__name__, getattr(got_pkt, 'id', None))
+                chk.violation('ref:relay:decode:%s' % k, '%s: read_packet returned %r' % (where, desc), {'row': ra})
                 continue
             got_pkt.context = ConnectionContext(protocol_version=rb['p'])
             sink = Sink()
